@@ -196,6 +196,45 @@ def main(tier, seed):
                      if r is None else "an ill-typed value was stored", {"stored": bad[:3]})
                 db = fresh(csv)
                 handle = db.measurement("m")
+        # a valid callable in an EARLIER argument position must not switch off the validation of a later static argument; and arguments are
+        # validated even when the query selects nothing (valid index, no candidates) or the handle's measurement holds no point
+        good_call = {"time": lambda t: t, "measurement": lambda m: m, "tags": lambda d: {"ok": "1"}, "fields": lambda d: {"ok": 1.0}}
+        bad_static = {"tags": [{"k": 1}, {5: "x"}, {"k": 1.5}], "fields": [{"a": "x"}, {"a": True}, {1: 1.0}], "measurement": [5], "time": ["2020-01-01"]}
+        order = ["time", "measurement", "tags", "fields"]
+        db = fresh(csv)
+        handle = db.measurement("m")
+        empty_handle = db.measurement("no-such-measurement")
+        q_none = tf.TagQuery().a == "no-such-value"
+        db.count(q_none)                                   # a read: the index is valid from here on (auto_index is on by default)
+        for later in order:
+            for v in bad_static[later]:
+                calls = [(f"db.update({later}=<ill-typed>) with a query that selects nothing", lambda v=v, later=later: db.update(q_none, **{later: v})),
+                         (f"measurement.update_all({later}=<ill-typed>) on a measurement without points", lambda v=v, later=later: empty_handle.update_all(**{later: v})),
+                         (f"measurement.update({later}=<ill-typed>) with a query that selects nothing", lambda v=v, later=later: handle.update(q_none, **{later: v}))]
+                for earlier in order[:order.index(later)]:
+                    kw = {earlier: good_call[earlier], later: v}
+                    calls.append((f"db.update({earlier}=<callable>, {later}=<ill-typed>)", lambda kw=kw: db.update(q_all, **kw)))
+                    calls.append((f"db.update_all({earlier}=<callable>, {later}=<ill-typed>)", lambda kw=kw: db.update_all(**kw)))
+                    calls.append((f"measurement.update({earlier}=<callable>, {later}=<ill-typed>)", lambda kw=kw: handle.update(q_all, **kw)))
+                for name, call in calls:
+                    before = [M.canon_point(x) for x in db.all(sorted=False)]
+                    r = raises(call)
+                    n_checks += 1
+                    bad = stored_ok(tf, db)
+                    after = [M.canon_point(x) for x in db.all(sorted=False)]
+                    if bad:
+                        note(name, v, "an ill-typed value was stored", {"stored": bad[:3]})
+                    elif r is None:
+                        note(name, v, "an ill-typed update argument was accepted")
+                    elif after != before:
+                        note(name, v, "a rejected update changed the stored contents")
+                    if bad or after != before:
+                        if csv:
+                            db.close()
+                        db = fresh(csv)
+                        handle = db.measurement("m")
+                        empty_handle = db.measurement("no-such-measurement")
+                        db.count(q_none)
         # callables whose k-th result is the ill-typed one, after k-1 valid results (fresh mappings, or ONE mapping object refilled and handed
         # back every time): validation must not depend on what was validated before
         for slot, good, ill in (("fields", lambda i: {"g": float(i)}, {"g": "str"}), ("tags", lambda i: {"g": str(i)}, {"g": 7}),
